@@ -43,7 +43,7 @@ def _relation(node, role, call, snap) -> str:
         return "other"
     if role == "child":
         if node.start == 0 and node.end == len(node.value):
-            return "span=[0,len(own value))"
+            return "span=[0,len(own-value))"
         return "other"
     return "other"
 
